@@ -199,3 +199,29 @@ ADDENDA = {
 }
 for _k, _v in ADDENDA.items():
     META[_k]["level_text"] = META[_k]["level_text"].rstrip() + " " + _v
+
+# what rounds 7-9 of the seeded-change experiments added (DESIGN sections 3.6 - 3.8)
+ADDENDA2 = {
+    "C01": "Later: GOMAXPROCS rotated over the cases; 70000 round trips on one SA pair; every notify / configuration attribute type inside SK; pre-parsed headers taken from another (reused) buffer or from 28 octets alone; authenticated parts of exactly k*4096 octets; chains of up to 300 payloads; fields of a message related to each other (SPIs equal to the header's).",
+    "C02": "Later: unknown payloads spliced in front of SK, header rewritten as an initial request, SK payload cut short with the rest framed as another payload, messages of 1-12 KiB with a spy under the cipher interface, authenticated parts of exactly k*4096 octets.",
+    "C03": "Later: identifier sweeps (all 16-bit notify, attribute, group and transform ids; KE values shaped like their group; DER-like certificate data), messages of > 1 MiB, 1.1 million decodes in one process, the decoded message printed, re-encoded with edited header fields and with transform attributes switched between formats.",
+    "C04": "Later: retention and goroutine census around a flood of 12000 datagrams (a quarter refused), identifier sweeps as payload bodies, direct inputs of up to 8 MB (two million skipped payloads, 60000 empty attributes, ciphertexts of 16 + k*65536 octets) under a 32 MiB stack limit.",
+    "C05": "Later: identifier sweeps in both directions, network names / identities / KE shapes / DER data as contents, messages of > 1 MiB.",
+    "C06": "Later: reference senders that chain IVs and use pad conventions of other protocols, authenticated parts of exactly k*4096 octets, SPIs starting with transport-shim prefixes.",
+    "C07": "Later: arguments related to each other (nonce ending in the SPIs, nonce = secret), hash objects used as handed out and across Sum calls, an SA left idle for seconds.",
+    "C08": "Later: nonces related to the IKE SA's and to earlier ones, templates keyed under another IKE SA before, ToProposal before keying, 2300 Child SAs of one IKE SA, an IKE SA left idle for seconds.",
+    "C09": "Later: error kinds of the random source (EAGAIN, EINTR, EOF ...), k(p-1) exponents, 70000 exponents, peer values of every shape through CalculateDiffieHellmanMaterials with a pinned random stream, exponent objects changed in place.",
+    "C10": "Later: chained IVs, 70000 encryptions on one object, arguments at every memory alignment, keys inside longer keying material, a cipher object left idle for seconds.",
+    "C11": "Later: key-length sweeps for neighbouring identifiers, proposals of other protocols, a binary linking only the algorithm packages, the caller refilling its proposal / editing the transforms it was handed.",
+    "C12": "Later: identifier sweeps through the canonical fixed point, related selectors and proposals, decoded messages printed before they are re-encoded.",
+    "C13": "Later: bodies that read as fragments / nested chains for the registered unsupported types, every 8-bit identifier next to an unsupported payload, one type code several times, type codes named (String) before decoding, 1.1 million container decodes.",
+    "C14": "Later: EAP lengths across octet boundaries, network names and digests of nothing as values, zero-value packets, nil and empty values, packets printed and asked for absent attributes, gaps of exactly 255..131072 SetAttr calls, a packet left idle for seconds.",
+    "C15": "Later: two packets in lock step, RES bit lengths that are no multiple of 8, MAC after 30000 other packets and after seconds of idling, the method decoder called directly, decoded packets with edited header fields.",
+    "C16": "Later: SUPI / NAI / SUCI identities, keys related to each other, empty keys as nil and as empty slices, 70000 derivations.",
+    "C17": "Later: bulk histories (megabytes per SA) under changing GOMAXPROCS, runs of forgeries, an earlier datagram again (A B A), nonces related to earlier ones, Child SAs with a DH descriptor, an SA pair left idle for seconds.",
+    "C18": "Later: error-path bursts, DH storms (96 goroutines on 4 processors), hammer bursts (8 goroutines repeating one operation with their own / the same arguments and the same read-only datagram), goroutine census after successful and after refused calls.",
+    "C19": "Later: special-purpose IPv4 blocks, sequences of 2-10 builder calls with every earlier payload re-checked, NAS PDUs of 32-64 KiB in a row, PEM / text contents.",
+    "C20": "Later: identifier sweeps, the decoded message printed, edited and re-encoded (receive buffer untouched, encoding outside it), decoded fields that do not overlap each other, pre-parsed headers from a reused buffer, a decoded message left idle for seconds.",
+}
+for _k, _v in ADDENDA2.items():
+    META[_k]["level_text"] = META[_k]["level_text"].rstrip() + " " + _v
